@@ -147,7 +147,7 @@ func solveOne(o *Obligation, goal, suffix, workDir string, secs int, all bool) O
 	// remaining combinations only when nothing has answered after two seconds
 	late := func(vi int, sp solverSpec) bool {
 		first := map[int]string{0: "z3-new", 1: "z3", 2: "cvc5", 3: "z3-new", 4: "cvc5"}
-		if !(o.HasInstanceVariant() || o.HasPlus()) || o.Cover {
+		if !(o.HasInstanceVariant() || o.HasPlus()) || o.Cover || (all && vi == 0) {
 			return false
 		}
 		return first[vi] != sp.name
@@ -223,9 +223,16 @@ func solveOne(o *Obligation, goal, suffix, workDir string, secs int, all bool) O
 		}()
 	}
 	var definitive *SolverAnswer
+	// thorough tier (all): every solver's answer on the full variant is collected (cross-check);
+	// the weaker variants are only there to find a proof and are cancelled once one exists and
+	// the full-variant runs are in
+	fullLeft := len(solvers)
 	for i := 0; i < nruns; i++ {
 		a := <-ch
 		r.All = append(r.All, a)
+		if !strings.Contains(a.Solver, "/") && !strings.HasPrefix(a.Solver, "split") {
+			fullLeft--
+		}
 		if (a.Result == "sat" || a.Result == "unsat") && definitive == nil {
 			aa := a
 			definitive = &aa
@@ -233,6 +240,10 @@ func solveOne(o *Obligation, goal, suffix, workDir string, secs int, all bool) O
 				cancel()
 				break
 			}
+		}
+		if all && definitive != nil && fullLeft <= 0 {
+			cancel()
+			break
 		}
 	}
 	if definitive != nil {
